@@ -17,6 +17,17 @@ class AnalysisError(Exception):
     """The analysis itself cannot proceed (exit 2, never a verdict)."""
 
 
+CURRENT = None   # the Model of this process; lets ClassInfo/FuncInfo travel between forked workers by name
+
+
+def _restore_class(qualname):
+    return CURRENT.classes[qualname]
+
+
+def _restore_func(key):
+    return CURRENT.functions[key]
+
+
 # --------------------------------------------------------------------------
 # references
 
@@ -87,6 +98,12 @@ class FuncInfo:
     def short(self):
         return self.qualname[len(PKG) + 1:] if self.qualname.startswith(PKG + '.') else self.qualname
 
+    def __reduce__(self):
+        for k, v in CURRENT.functions.items():
+            if v is self:
+                return (_restore_func, (k,))
+        raise TypeError('unregistered function %s' % self.qualname)
+
     def params(self):
         a = self.node.args
         return [x.arg for x in a.posonlyargs + a.args]
@@ -112,6 +129,9 @@ class ClassInfo:
     @property
     def short(self):
         return self.qualname[len(PKG) + 1:]
+
+    def __reduce__(self):
+        return (_restore_class, (self.qualname,))
 
     def bases(self):
         if self._bases is None:
@@ -219,6 +239,8 @@ class Model:
         self.functions = {}    # qualname -> FuncInfo
         self.lambdas = 0
         self._load()
+        global CURRENT
+        CURRENT = self
 
     # ---- loading -------------------------------------------------------
 
